@@ -173,7 +173,8 @@ func (m *Matcher) numberRegion(i, j int, want float64, mustInt bool) bool {
 	case gen.VInt:
 		return float64(d.Val.I) == want
 	case gen.VFloat:
-		return !mustInt && d.Val.F == want
+		// an integral number written with float syntax (1e3, 2.0) is that number
+		return d.Val.F == want
 	case gen.VQuoted, gen.VWord:
 		// a~"2": the quoted text is that number
 		dd := Decode(d.Val.S)
@@ -181,7 +182,7 @@ func (m *Matcher) numberRegion(i, j int, want float64, mustInt bool) bool {
 			return float64(dd.Val.I) == want
 		}
 		if dd.Known && dd.Val.K == gen.VFloat {
-			return !mustInt && dd.Val.F == want
+			return dd.Val.F == want
 		}
 	}
 	return false
